@@ -48,10 +48,11 @@ def leaf(kind, ids, rng=None, text_ws=False):
 def node_of_kind(kind, ids, rng, children=()):
     how = rng.choice(gen.HOWS) if rng.random() < 0.3 else "ctor"
     sub = {"subclass": True} if rng.random() < 0.05 else {}
+    fixed = bool(sub) and rng.random() < 0.5
     if kind == "block":
-        return gen.TAG(rng.choice(BLOCKS), *children, ws=True, via_fn=False, attrs=_attrs(rng, ids), how=how, **sub)
+        return gen.TAG("x-card" if fixed else rng.choice(BLOCKS), *children, ws=True, via_fn=False, attrs=_attrs(rng, ids), how=how, **sub)
     if kind == "inline":
-        return gen.TAG(rng.choice(INLINES), *children, ws=False, via_fn=False, attrs=_attrs(rng, ids), how=how, **sub)
+        return gen.TAG("x-card" if fixed else rng.choice(INLINES), *children, ws=False, via_fn=False, attrs=_attrs(rng, ids), how=how, **sub)
     if kind == "void_inline":
         return gen.TAG(rng.choice(VOID_INLINE), ws=False, via_fn=False, attrs=_attrs(rng, ids))
     if kind == "void_block":
